@@ -63,6 +63,19 @@ Proof.
     repeat split; intros; try congruence; try lia.
 Qed.
 
+(* a client hook that cancels is enforced at EVERY loop head at or past the limit,
+   not only at the one where Steps = maxSteps *)
+Lemma hook_enforced_lemma t h t' cr :
+  onmax t = Some h -> (forall c, h c <> None) ->
+  maxSteps t <= (steps t + 1) mod two64 ->
+  loop_head t = (t', cr) -> cr <> None.
+Proof.
+  unfold loop_head, limit_hit. intros Ho Hh L E. inversion E; subst; clear E.
+  cbn [onmax set_steps maxSteps steps]. rewrite Ho.
+  destruct (maxSteps t <=? (steps t + 1) mod two64) eqn:X; [|lia].
+  cbn [cancel set_cancel set_steps]. apply Hh.
+Qed.
+
 Lemma call_init_fields t :
   steps (call_init t) = steps t /\ cancel (call_init t) = cancel t /\ onmax (call_init t) = onmax t /\
   (maxSteps t <> 0 -> maxSteps (call_init t) = maxSteps t).
